@@ -26,6 +26,8 @@ func init() {
 		Doc: "the index path trims on cnt > limit from the oldest end", Run: runTopkBnd})
 	reg(&core.RuleInfo{Name: "SCAN-LIMIT", Props: []string{"C03"}, Engine: "CFG", Floor: 1, Confirmed: 1,
 		Doc: "the scan path consults Done before and counts with LimitMatch", Run: runScanLimit})
+	reg(&core.RuleInfo{Name: "SCAN-FULL", Props: []string{"C03"}, Engine: "CFG", Floor: 1, Confirmed: 1,
+		Doc: "the retained-set tree is only ever walked from its newest end: no seek can skip a matching event", Run: runScanFull})
 	reg(&core.RuleInfo{Name: "IDX-INTERSECT", Props: []string{"C03"}, Engine: "CFG", Floor: 2, Confirmed: 3,
 		Doc: "index keys: union within a condition, intersection across conditions, residual since/until match", Run: runIdxIntersect})
 }
@@ -526,4 +528,42 @@ func runIdxIntersect(c *core.Ctx) {
 		}
 	}
 	c.Check(resid && guarded, nil, fname(c, find), "residual(since,until)", P.Pos(find.Pos()), "candidates enter the result only if a matcher over exactly {Since, Until} of the filter accepts them", fmt.Sprintf("since/until are not applied on the index path (residual filter literal ok: %v, insertion guarded by its Match: %v)", resid, guarded))
+}
+
+// SCAN-FULL (closed world): the query path reads the creation-time tree only
+// through Iterator() (from the newest end) and Len(). A seek (LowerBound,
+// UpperBound, …) starts the walk somewhere else; whether it skips events that
+// match depends on the comparator's tie-break and on the probe key, which this
+// analysis cannot evaluate — so any other read is reported as unproven.
+func runScanFull(c *core.Ctx) {
+	P := c.P
+	find := P.Method(P.Root, "EventCache", "Find")
+	if find == nil {
+		c.NoAnchor(nil, "EventCache.Find")
+		return
+	}
+	fns := an.RefClosure([]*ssa.Function{find}, P.InModule)
+	c.CountFuncs(len(fns))
+	n := 0
+	var other []string
+	for _, fn := range fns {
+		for _, ci := range calls(fn) {
+			name := an.CalleeName(ci.Common())
+			if !strings.Contains(name, "igrmk/treemap/v2.TreeMap[") || len(ci.Common().Args) == 0 || an.PathOf(ci.Common().Args[0]) != "recv.evsCreatedAt" {
+				continue
+			}
+			n++
+			m := name[strings.LastIndex(name, ".")+1:]
+			if m != "Iterator" && m != "Len" {
+				other = append(other, fmt.Sprintf("%s at %s", m, P.Pos(ci.Pos())))
+			}
+		}
+	}
+	c.CountSites(n)
+	if n == 0 {
+		c.NoAnchor(nil, "reads of the creation-time tree on the query path")
+		return
+	}
+	c.Check(len(other) == 0, nil, fname(c, find), "tree-reads", P.Pos(find.Pos()), fmt.Sprintf("all %d reads of the creation-time tree on the query path are Iterator()/Len(): every retained event is visited newest first", n),
+		"the query path also reads the creation-time tree through "+strings.Join(other, ", ")+": a walk that does not start at the newest end can skip matching events (ties at the probe key follow the comparator's id order)")
 }
